@@ -77,7 +77,7 @@ extern "C" void h_write_srec()
   m.low_address = nondet_uint(); m.high_address = nondet_uint(); m.entry_point = nondet_uint();
   int srec_size = nondet_int();
   ASSUME(srec_size == SREC_16 || srec_size == SREC_24 || srec_size == SREC_32);
-  ASSUME(m.low_address <= m.high_address && m.high_address < 0xffffffff);
+  ASSUME(m.low_address <= m.high_address);   /* any range, including one that ends at 0xffffffff */
   ASSUME(srec_size != SREC_24 || m.high_address <= 0xffffff);
 #ifndef ANY_ENTRY
   ASSUME(m.entry_point == 0xffffffff || m.entry_point <= 0xffff);   /* wider entry points: separate obligation group */
